@@ -90,6 +90,7 @@ type Summary struct {
 	ForeignSig  map[string]int    `json:"foreign_sigs"`
 	ForeignEx   map[string]string `json:"foreign_examples"`
 	HarnessErrs []string          `json:"harness_errs"`
+	LastIndex   int               `json:"last_index"`
 }
 
 type Job struct {
@@ -435,30 +436,62 @@ func doCheck(scratch, prop, tier string) int {
 			wg.Add(1)
 			go func(w int) {
 				defer wg.Done()
-				job := &Job{Mode: "batch", Property: prop, Tier: tier, BaseSeed: seed, From: w, Stride: workers, Count: 1 << 30, WallS: per}
-				if mr := envInt("VERIF_MAXRUNS", 0); mr > 0 {
-					job.Count = (mr + workers - 1) / workers
+				// A worker process is replaced when it has grown too large (it
+				// stops by itself, see workerBatch) or has run for a minute: the
+				// goroutines of abandoned runs accumulate.  The next process
+				// continues with the next run index of this worker's slice.
+				from := w
+				left := envInt("VERIF_MAXRUNS", 0)
+				if left > 0 {
+					left = (left + workers - 1) / workers
 				}
-				lines, err := runWorker(bin, scratch, job, time.Duration(per*float64(time.Second))+300*time.Second)
-				mu.Lock()
-				defer mu.Unlock()
-				if err != nil && trouble == "" {
-					trouble = err.Error()
-				}
-				for _, m := range lines {
-					switch kindOf(m) {
-					case "summary":
-						var s Summary
-						data, _ := json.Marshal(m)
-						json.Unmarshal(data, &s)
-						a.add(&s)
-					case "failure":
-						var r RunResult
-						json.Unmarshal(m["result"], &r)
-						a.failures = append(a.failures, &r)
-					case "error":
-						if trouble == "" {
-							trouble = string(m["error"])
+				deadline := time.Now().Add(time.Duration(per * float64(time.Second)))
+				for {
+					remaining := time.Until(deadline).Seconds()
+					if remaining < 0.5 {
+						break
+					}
+					chunk := remaining
+					if chunk > 60 {
+						chunk = 60
+					}
+					job := &Job{Mode: "batch", Property: prop, Tier: tier, BaseSeed: seed, From: from, Stride: workers, Count: 1 << 30, WallS: chunk}
+					if left > 0 {
+						job.Count = left
+					}
+					lines, err := runWorker(bin, scratch, job, time.Duration(chunk*float64(time.Second))+300*time.Second)
+					runs, last := 0, -1
+					mu.Lock()
+					if err != nil && trouble == "" {
+						trouble = err.Error()
+					}
+					for _, m := range lines {
+						switch kindOf(m) {
+						case "summary":
+							var s Summary
+							data, _ := json.Marshal(m)
+							json.Unmarshal(data, &s)
+							a.add(&s)
+							runs, last = s.Runs, s.LastIndex
+						case "failure":
+							var r RunResult
+							json.Unmarshal(m["result"], &r)
+							a.failures = append(a.failures, &r)
+						case "error":
+							if trouble == "" {
+								trouble = string(m["error"])
+							}
+						}
+					}
+					mu.Unlock()
+					if err != nil || runs == 0 {
+						break
+					}
+					from = last + workers
+					if left > 0 {
+						left -= runs
+						if left <= 0 {
+							break
 						}
 					}
 				}
